@@ -24,6 +24,10 @@ CHECKS = {
    text="Seeded hostile programs (ill-typed operations, division by zero, runaway and wide recursion, operand-stack exhaustion, spread of over-long arrays, mutation during iteration, builtin/format/module misuse, self-referential containers) run through the context-aware entry points under injected faults at simulator-chosen instants: panics raised inside the dispatch loop, failing/panicking/blocking host functions, cancellation at any site, allocation budget, small length limits; crash-isolated worker processes observe unrecoverable fatals; afterwards Get/GetAll/IsDefined/Set/RunContext on the same object must behave like a fresh object. Sampling, not proof.",
    note="Trusts the crash classification by the Go runtime's own messages and the after-care baseline (same implementation, fresh object). Known finding (cyclic containers -> fatal stack overflow) is listed in known_findings.json by recursion signature; any other crash signature is reported.",
    tech="deterministic simulation with fault injection: seeded hostile workloads x injected panics/host faults/cancellation at chosen instants, process-isolated workers, fresh-object oracle"),
+ "C08": dict(cat="exploration", ref="DESIGN.md 5.4",
+   text="K clones (and, separately, several threads on one object) are interleaved instruction by instruction and at lock sites by a seeded scheduler; every clone must return exactly what it returns alone on a separately compiled copy, untouched objects must stay unchanged, operations on one object must equal a serial witness in lock order, and the Go race detector - made independent of timing by hiding the simulator's own hand-offs and draining sync.Pools at every context switch - must report no conflicting unsynchronised accesses in tengo code. Sampling, not proof.",
+   note="Trusts the Go race detector's happens-before analysis (bounded shadow history), the separately compiled baseline, and the rule that the simulator never touches tengo memory from the controller. Two genuine races found on the pinned tree were repaired by fix: commits (recorded in known_findings.json as fixed).",
+   tech="deterministic simulation: seeded interleaving of clone executions on real goroutines + happens-before race analysis with simulator hand-offs hidden; solo-run and serial-witness oracles"),
  "C07": dict(cat="exploration", ref="DESIGN.md 5.1",
    text="Seeded search over cancellation instants (every hand-off site of RunContext, any VM instruction, during a blocking host call, after return), context kinds, caller stalls and thread interleavings of {caller, VM goroutine, fake clock}, on the real code; oracles: returned error vs. context state and vs. the undisturbed run, bounded-step promptness, no VM activity or goroutine after return, re-run equals a fresh object. Sampling, not proof.",
    note="Trusts the guarded hooks (no-ops without the tag), testing/synctest quiescence detection and the simulator's own bookkeeping; interleavings within one VM instruction and the runtime's coin flip in a both-ready select are not explored.",
